@@ -624,3 +624,54 @@ def check_sink(run, tree):
         run.violated(construct, init.where(), "raises %s" % e, "sink files")
     except ERR as e:
         run.unresolved(construct, init.where(), "cannot fold: %s" % e)
+
+
+# =============================================================================== derived variables (config/defaults.py)
+def check_derived_variables(run, tree):
+    from .core_models import ArrTok
+    from .subdomain_folds import sem, NotAMask
+    from ..poly import Poly
+    fi = tree.func("config/defaults.py::additional_variables")
+    run.analysed(fi)
+
+    def mesh(keys):
+        return {k: ArrTok(k, {"B_left": "G", "B_right": "G", "density": "g/cm**3", "dx": "cm", "pressure": "erg/cm**3"}[k], (4,), k) for k in keys}
+    cases = [("all inputs present", {"mesh": mesh(["B_left", "B_right", "density", "dx", "pressure"])}, {"B_field", "mass"}),
+             ("no magnetic field", {"mesh": mesh(["density", "dx"])}, {"mass"}),
+             ("no density", {"mesh": mesh(["B_left", "B_right", "dx"])}, {"B_field"}),
+             ("no mesh group", {"part": {}}, set())]
+    for label, data, want_new in cases:
+        construct = "config/defaults.py::additional_variables[%s]" % label
+        try:
+            before = {g: set(v) for g, v in data.items()}
+            try:
+                ModelEval(tree, fi, {}, {}).invoke(fi, [data], {}, None)
+            except (Raised, ProgramRaised) as e:
+                run.violated(construct, fi.where(), "raises %s" % e, "loading an output with %s" % label)
+                continue
+            problems = []
+            new = {k for g, v in data.items() for k in v if k not in before.get(g, set())}
+            if new != want_new or set(data) != set(before):
+                problems.append("derived variables %s in groups %s (required %s in the mesh group)" % (sorted(new), sorted(data), sorted(want_new)))
+            m = data.get("mesh", {})
+            try:
+                if "B_field" in want_new and "B_field" in m:
+                    got = sem(m["B_field"].origin)
+                    want = (Poly.sym("B_left") + Poly.sym("B_right")) * Poly.const(0.5)
+                    if got != want:
+                        problems.append("B_field = %r (required the mean of the two face fields)" % (got,))
+                if "mass" in want_new and "mass" in m:
+                    o = m["mass"].origin
+                    inner = o[1] if isinstance(o, tuple) and o and o[0] == "to" else o
+                    got = sem(inner)
+                    want = Poly.sym("density") * Poly.sym("dx") ** 3
+                    if got != want:
+                        problems.append("mass = %r (required density * dx**3)" % (got,))
+                    if not (isinstance(o, tuple) and o[0] == "to" and o[2] == "M_sun"):
+                        problems.append("mass is not converted to solar masses: %r" % (o,))
+            except NotAMask as e:
+                problems.append("derived variable with an unexpected form: %s" % e)
+            run.ob(construct, not problems, fi.where(), "; ".join(problems) or "new mesh variables %s with the documented formulas" % sorted(want_new),
+                   "derived variable missing or wrong (B_field is not the mean of the face fields, mass is not density * dx**3); a missing input aborts the load")
+        except ERR as e:
+            run.unresolved(construct, fi.where(), "cannot fold: %s" % e)
